@@ -80,14 +80,14 @@ func TestTransparency(t *testing.T) {
 	u := vk.New(t, "C07", "transparency")
 	defer u.Close()
 	defer stopWorker()
-	vk.Rapid(u, vk.N(2400, 100_000), regressTransparency, func(t *rapid.T) Case { return drawCase(t, "") }, wrap(u, "transparency"))
+	vk.Rapid(u, vk.N(2400, 100_000), append(append([]Case(nil), regressTransparency...), regressKnownTransparency...), func(t *rapid.T) Case { return drawCase(t, "") }, wrap(u, "transparency"))
 }
 
 func TestExpand(t *testing.T) {
 	u := vk.New(t, "C07", "expand-roundtrip")
 	defer u.Close()
 	defer stopWorker()
-	vk.Rapid(u, vk.N(800, 30_000), nil, func(t *rapid.T) Case { return drawCase(t, "expand") }, wrap(u, "expand"))
+	vk.Rapid(u, vk.N(800, 30_000), regressKnownExpand, func(t *rapid.T) Case { return drawCase(t, "expand") }, wrap(u, "expand"))
 }
 
 func cycleCase(files map[string]string, ex Expect, tags ...string) Case {
@@ -114,7 +114,7 @@ func TestCycles(t *testing.T) {
 	u := vk.New(t, "C07", "cycles")
 	defer u.Close()
 	defer stopWorker()
-	vk.Rapid(u, vk.N(800, 30_000), regressCycles, drawCycle, wrap(u, "cycle"))
+	vk.Rapid(u, vk.N(800, 30_000), append(append([]Case(nil), regressCycles...), regressKnownCycles...), drawCycle, wrap(u, "cycle"))
 }
 
 // deepChains: chains around the default limit of 1000 nested references, which
